@@ -193,6 +193,7 @@ type Exec struct {
 	objCount    uint64
 	panicVal    string
 	CollectKeys bool
+	TimeJumps   bool // offer 'a pending timer fires although goroutines are runnable' as an alternative
 }
 
 var cur atomic.Pointer[Exec]
@@ -319,7 +320,11 @@ func (e *Exec) objFor(p uintptr, ref any, g *G, pos string) *Obj {
 
 // Go starts fn as a goroutine under the scheduler.
 func Go(pos string, fn func()) {
-	e := current()
+	e := cur.Load()
+	if e == nil {
+		go fn()
+		return
+	}
 	parent := e.self()
 	e.spawn(parent, pos, fn)
 }
@@ -439,7 +444,10 @@ func Choice(pos string, n int) int {
 	if n <= 1 {
 		return 0
 	}
-	e := current()
+	e := cur.Load()
+	if e == nil {
+		return 0
+	}
 	g := e.self()
 	o := &op{kind: OpChoice, pos: pos, n: n}
 	d := e.point(g, o)
@@ -452,6 +460,7 @@ type candidate struct {
 	g     *G
 	alt   int // select case index / choice answer / -1 default / -2 block
 	timer *vtimer
+	jump  bool // advance the clock to the timer's deadline first
 	label string
 }
 
@@ -549,6 +558,18 @@ func (e *Exec) collect() []candidate {
 	})
 	for _, t := range due {
 		out = append(out, candidate{timer: t})
+	}
+	if e.TimeJumps && len(out) > 0 {
+		// a slow goroutine: the earliest pending timer fires before anything else runs
+		var best *vtimer
+		for _, t := range e.timers {
+			if t.active && t.deadline > e.now && (best == nil || t.deadline < best.deadline || (t.deadline == best.deadline && t.seq < best.seq)) {
+				best = t
+			}
+		}
+		if best != nil {
+			out = append(out, candidate{timer: best, jump: true})
+		}
 	}
 	return out
 }
@@ -671,6 +692,9 @@ func (e *Exec) loop() {
 		}
 		if c.timer != nil {
 			t := c.timer
+			if c.jump && t.deadline > e.now {
+				e.now = t.deadline
+			}
 			e.mu.Unlock()
 			e.fire(t)
 			continue
@@ -721,6 +745,7 @@ func RunOnce(t *testing.T, s Strategy, cfg Config, body func()) *Result {
 			MaxSteps:    cfg.MaxSteps,
 			TraceOn:     cfg.Trace,
 			CollectKeys: cfg.Keys,
+			TimeJumps:   cfg.TimeJumps,
 		}
 		if e.MaxSteps == 0 {
 			e.MaxSteps = 200000
@@ -761,4 +786,5 @@ type Config struct {
 	MaxSteps int
 	Trace    bool
 	Keys     bool
+	TimeJumps bool
 }
